@@ -260,6 +260,34 @@ def written_term_cases(ctx):
     return cex, len(ws)
 
 
+# classical negation against a fresh positive predicate: -p written as np (with the constraint that p and np exclude each other) gives the same answer sets
+# and the same SHOWN atoms - with #show statements for the negated and for the positive signature, in every part, with primes
+NEG_RENAMED = [
+    ('#program always.\n{ p }.\n-p :- not p.\nr.\n#show -p/0.\n#show r/0.\n', '#program always.\n{ p }.\nnp :- not p.\n:- p, np.\nr.\n#show np/0.\n#show r/0.\n'),
+    ('#program always.\n{ p(1..2) }.\n-p(X) :- not p(X), X = 1..2.\n#show -p/1.\n', '#program always.\n{ p(1..2) }.\nnp(X) :- not p(X), X = 1..2.\n:- p(X), np(X).\n#show np/1.\n'),
+    ('#program always.\n{ p(1..2) }.\n-p(X) :- not p(X), X = 1..2.\n#show p/1.\n', '#program always.\n{ p(1..2) }.\nnp(X) :- not p(X), X = 1..2.\n:- p(X), np(X).\n#show p/1.\n'),
+    ('#program always.\n{ p }.\n-p :- not p.\n#show -p/0.\n#show p/0.\n#program dynamic.\nq :- -\'p.\n#show q/0.\n', '#program always.\n{ p }.\nnp :- not p.\n:- p, np.\n#show np/0.\n#show p/0.\n#program dynamic.\nq :- \'np.\n#show q/0.\n'),
+    ("#program initial.\n{ a }.\n-p' :- a.\n#program always.\n#show -p/0.\n#show a/0.\n", "#program initial.\n{ a }.\nnp' :- a.\n#program always.\n:- p, np.\n#show np/0.\n#show a/0.\n"),
+    ('#program always.\n{ p }.\n-p :- not p.\n#show.\n#show -p : -p.\n', '#program always.\n{ p }.\nnp :- not p.\n:- p, np.\n#show.\n#show np : np.\n'),
+]
+
+
+def negation_cases(ctx, H):
+    inputs = []
+    for a, b in NEG_RENAMED:
+        inputs += [[a], [b]]
+    res = meta.answer_sets(ctx, inputs, H, timeout=60)
+    cex = []
+    for i, (a, b) in enumerate(NEG_RENAMED):
+        ra, rb = res[2 * i], res[2 * i + 1]
+        if 'ok' in rb:
+            rb = {'ok': {h: sorted(tuple(sorted(('-' + x[1:]) if x.startswith('np') else x for x in m)) for m in ms) for h, ms in rb['ok'].items()}}
+        if not meta.same(ra, rb):
+            cex.append({'key': 'c06:negation:' + a.replace('\n', ' '), 'what': 'the program with a classically negated predicate and the program with a fresh positive predicate in its place show different atoms: %s' % json.dumps(meta.first_diff(ra, rb)),
+                        'input': {'negated': a, 'renamed': b, 'H': H}})
+    return cex, len(inputs)
+
+
 def run(ctx):
     S = schemata()
     rng = ctx.rng('combos')
@@ -296,6 +324,9 @@ def run(ctx):
     wcex, wn = written_term_cases(ctx)
     cex += wcex
     sn += 2 * wn
+    ncex, nn = negation_cases(ctx, H)
+    cex += ncex
+    sn += nn
     cov = {'evaluations': len(inputs) + sn, 'atom_argument_terms': len(SYMTERMS), 'atom_argument_theory_terms_compared': sn, 'distinct_nontrivial': len(nontriv),
            'rule': '%d rule schemata (variables, arithmetic, comparisons, pools, intervals, classical negation, primes, conditional literals, aggregates, #show/#external, variables in &tel/&del '
                    'bodies and &tel heads, element conditions, n-fold prefixes) in every applicable program part, alone and in random combinations of 2-3, over the domain {1,2}; each paired with '
@@ -306,6 +337,13 @@ def run(ctx):
 
 def replay(ctx, payload):
     inp = payload['input']
+    if 'negated' in inp:
+        global NEG_RENAMED
+        keep, NEG_RENAMED = NEG_RENAMED, [(inp['negated'], inp['renamed'])]
+        try:
+            return bool(negation_cases(ctx, inp.get('H', 2))[0])
+        finally:
+            NEG_RENAMED = keep
     if 'wterm' in inp:
         tt = lambda x: tuple(tt(y) if isinstance(y, list) and y and isinstance(y[0], str) else ([tt(z) for z in y] if isinstance(y, list) else y) for y in x)
         global WFIXED
